@@ -7,7 +7,7 @@ BINS = {"C01": ["vsim"], "C02": ["vsim"], "C05": ["vsim"], "C16": ["vsim"], "C17
         "C11": ["vnav"], "C08": ["vfield"], "C14": ["vgrid"], "C04": ["vinteract"], "C15": ["vsample"],
         "C09": ["vbuild"], "C19": ["vbuild"], "C20": ["voptical"]}
 # extension checks (specs beyond the listed properties; bin/check X0n, evidence/extras/)
-EXTRA_BINS = {"X01": ["vtracksort"], "X02": ["vlooping"], "X03": ["vbih"], "X04": ["vactionseq"]}
+EXTRA_BINS = {"X01": ["vtracksort"], "X02": ["vlooping"], "X03": ["vbih"], "X04": ["vactionseq"], "X05": ["vsurfdedupe"]}
 man = json.load(open(os.path.join(ROOT, "MANIFEST.json")))
 need = sorted({b for c in man["checks"] for b in BINS.get(c["property_id"], [])})
 need = sorted(set(need) | {b for v in EXTRA_BINS.values() for b in v
